@@ -10,12 +10,14 @@ CTX = {}
 
 def gen_case(rng):
     return {'kind': 'schemaleak', 'order': rng.choice(['plain-first', 'over-first']),
-            'how': rng.choice(['_schema', '_condition', 'merge_overrides']),
+            'how': rng.choice(['_schema', '_condition', 'merge_overrides', '_schema_default']),
             'glob_child': rng.random() < 0.7, 'ticks': rng.choice([1, 2])}
 
 
 def corpus():
     return [{'kind': 'schemaleak', 'order': 'over-first', 'how': '_schema', 'glob_child': True, 'ticks': 2},
+            {'kind': 'schemaleak', 'order': 'over-first', 'how': '_schema_default', 'glob_child': False, 'ticks': 1},
+            {'kind': 'schemaleak', 'order': 'plain-first', 'how': '_schema_default', 'glob_child': True, 'ticks': 1},
             {'kind': 'schemaleak', 'order': 'plain-first', 'how': '_condition', 'glob_child': True, 'ticks': 1}]
 
 
@@ -45,6 +47,10 @@ def run_impl(case):
             over = Shared({'key': key, 'who': 'over',
                            '_schema': {'a': {'y': {'_default': 10}}, 'g': {'*': {'y': {'_default': 5}}}}})
             extra_a, extra_g = ['y'], ['y']
+        elif case['how'] == '_schema_default':
+            # the override changes the default of a variable both instances declare
+            over = Shared({'key': key, 'who': 'over', '_schema': {'a': {'x': {'_default': 10}}}})
+            extra_a, extra_g = [], []
         elif case['how'] == '_condition':
             over = Shared({'key': key, 'who': 'over', '_condition': ('a', 'enabled')})
             extra_a, extra_g = ['enabled'], []
@@ -54,11 +60,15 @@ def run_impl(case):
             extra_a, extra_g = ['y'], []
         plain = Shared({'key': key, 'who': 'plain'})
         procs = {'plain': plain, 'over': over} if case['order'] == 'plain-first' else {'over': over, 'plain': plain}
-        topology = {name: {'a': ('A',), 'g': ('G',)} for name in procs}
+        # the two instances are wired to different nodes for port a
+        topology = {name: {'a': ('A',) if name == 'over' else ('A2',), 'g': ('G',)} for name in procs}
         init = {'G': {'c0': {'x': 1}}} if case['glob_child'] else {}
         eng = Engine(processes=procs, topology=topology, initial_state=init, emitter={'type': 'null'},
                      display_info=False, progress_bar=False)
         eng.update(case['ticks'])
+        state = eng.state.get_value()
+        obs['values'] = {'A.x': state.get('A', {}).get('x'), 'A2.x': state.get('A2', {}).get('x')}
+        obs['expected_values'] = {'A.x': 10 if case['how'] == '_schema_default' else 0, 'A2.x': 0}
         obs['declared'] = {'plain': {'a': ['x'], 'g': ['x']},
                            'over': {'a': sorted(['x'] + extra_a), 'g': sorted(['x'] + extra_g)}}
     except Exception as e:  # noqa
@@ -68,13 +78,18 @@ def run_impl(case):
     return obs
 
 
-def oracle(case, impl):
+def oracle(case, impl, who=('views', 'values')):
     if 'harness_exception' in impl:
         return [f'probe-crashed: {impl["harness_exception"]}']
     if impl.get('timeout'):
         return []
     if impl.get('raised'):
         return [f'engine-raised: {impl["raised"]}']
+    if 'values' in who and impl.get('values') != impl.get('expected_values'):
+        return [f'initial-value: variables hold {impl.get("values")}, their own declarations give '
+                f'{impl.get("expected_values")}']
+    if 'views' not in who:
+        return []
     decl = impl['declared']
     for ev in impl['log']:
         want = decl[ev['who']]
